@@ -45,6 +45,7 @@ func checkC10(r *core.Run) {
 	ruleRenewOwner(r)
 	r.Rule("T-loopvar: in the sao and did message handlers no address of a per-loop variable is stored into a slice/field inside its loop (revoking several accounts in one MsgUpdate must unbind each of them, since CreatorIsBoundToDid reads those bindings)")
 	ruleLoopVarAddr(r, "T-loopvar", "sao/keeper.msgServer.", "did/keeper.msgServer.")
+	ruleSigOwner(r)
 	r.Assume(aDeps)
 	r.Assume(aCG)
 
